@@ -99,6 +99,18 @@ def r_deser_id(ck: Checker) -> None:
                 if isinstance(c, ast.Call) and dotted(c.func) == "object.__setattr__" and len(c.args) == 3 and is_const(c.args[1], "id"):
                     seq.append(("force", norm(c.args[0]), norm(c.args[2])))
         want = [("remove", f"{obj}.id", None), ("force", obj, key), ("store", key, obj)]
+        # after `force(obj, X)` the text `obj.id` denotes X: a store keyed by `obj.id` that follows the force is a store under X
+        forced: dict[str, str] = {}
+        seq2 = []
+        for kind, a_, b_ in seq:
+            if kind == "force":
+                forced[f"{a_}.id"] = b_
+                seq2.append((kind, a_, b_))
+            elif kind == "store" and a_ in forced:
+                seq2.append((kind, forced[a_], b_))
+            else:
+                seq2.append((kind, a_, b_))
+        seq = seq2
         if seq != want:
             bad.append(f"ids differ: effects {seq}, expected remove provisional key -> force id -> register under the serialized id")
     (ck.violation if bad else ck.holds)("R-DESER-ID", f, f.node, what, evaluations=len(leaves), **({"construct": f"_deserialize: {bad[0]}"} if bad else {}))
@@ -571,6 +583,8 @@ def run(ck: Checker) -> None:
     ck.guard("R-IDX-PAIR", lambda: r_idx_pair(ck))
     ck.guard("R-IDX-PAIR", lambda: r_index_live(ck))
     ck.guard("R-IDX-PAIR", lambda: r_one_source_table(ck))
+    from . import state_rules as S4
+    ck.guard("R-IDX-PAIR", lambda: S4.r_who_calls(ck, "R-IDX-PAIR", (ORIGIN, "pyoak.node", "pyoak.serialize"), "clear_registry", (), "the source registry is emptied by the user only: loading sources, (de)serializing and constructing never drop registered sources"))
     ck.guard("R-FMT-PAIR", lambda: r_codec_config(ck))
     # a multi-origin must come back equal: its derived source follows the members' sources by value
     from .c15 import r_multiorigin_init
